@@ -849,15 +849,7 @@ func (s *PrintCtx) pcAppendRune(r rune) {
 
 func (s *PrintCtx) pcTryQuoteValue(val string) {
 	s.preCheck()
-	if s.noColor {
-		// return strconv.Quote(val)
-		s.appendQuotedString(val)
-		// s.pcAppendByte('"')
-		// s.appendEscapedJSONString(val)
-		// s.pcAppendByte('"')
-	} else {
-		s.pcAppendStringValue(val)
-	}
+	s.appendTerminalSafe(val)
 }
 
 func (s *PrintCtx) pcQuoteValue(val string) {
@@ -1456,7 +1448,7 @@ func (s *PrintCtx) appendValue(val any) {
 					hintInternal(err, "MarshalText failed")
 					break
 				}
-				s.pcAppendStringValue(string(data))
+				s.appendTerminalSafe(string(data))
 				break
 			}
 		}
@@ -1744,10 +1736,29 @@ var safeSet = [utf8.RuneSelf]bool{
 }
 
 func (s *PrintCtx) appendBytes(z []byte) {
-	_, err := s.Write(z)
-	if err != nil {
-		hintInternal(err, "PrintCtx: appendBytes failed")
+	// never raw: a byte slice may carry quotes, line breaks, escape sequences
+	s.appendTerminalSafe(string(z))
+}
+
+// appendTerminalSafe writes val quoted and escaped in json/logfmt mode; on
+// a colored terminal plain text stays as it is, but text carrying control
+// or escape bytes is quoted too, so that a value can never recolour the
+// terminal or break the line.
+func (s *PrintCtx) appendTerminalSafe(val string) {
+	if !s.noColor {
+		safe := true
+		for i := 0; i < len(val); i++ {
+			if val[i] < 0x20 || val[i] == 0x7f {
+				safe = false
+				break
+			}
+		}
+		if safe {
+			s.pcAppendStringValue(val)
+			return
+		}
 	}
+	s.appendQuotedString(val)
 }
 
 func (s *PrintCtx) appendStringSlice(val []string) {
